@@ -200,7 +200,7 @@ func serDecFailures(e *env, s string) map[[2]string]string {
 var jsonChars = []string{"[", "]", "{", "}", "\"", ":", ",", "0", "1", "-", ".", "e", "\\", "a", " "}
 var jsonTokens = []string{"[", "]", "{", "}", ":", ",", " ", "\"a\"", "\"b\"", "\"\\u00e9\"", "\"length\"", "null", "true", "false", "1", "-1", "1.5", "1e2", "9007199254740993", "9223372036854775808"}
 var serChars = []string{"N", "b", "i", "s", "a", "d", ":", ";", "0", "1", "\"", "{", "}", "-", "x"}
-var serTokens = []string{"N;", "b:1;", "i:0;", "i:1;", "i:-1;", "d:0.5;", "s:0:\"", "s:1:\"", "s:2:\"", "\";", "x", "\"", "a:0:{", "a:1:{", "a:2:{", "a:99999999999999:{", "}", ";", " ", "+"}
+var serTokens = []string{"N;", "b:1;", "i:0;", "i:1;", "i:-1;", "d:0.5;", "s:0:\"", "s:1:\"", "s:2:\"", "\";", "x", "\"", "a:0:{", "a:1:{", "a:2:{", "}", ";", " ", "+"}
 
 type decCodec struct {
 	Name   string
@@ -330,6 +330,7 @@ func serBases(quick bool) []string {
 		}
 	}
 	out = append(out, `a:1:{i:0;a:1:{i:0;a:0:{}}}`, `i:+1;`, `d:1.0E+21;`, `d:-0;`, `a:2:{i:0;N;i:0;b:1;}`, `s:3:"a;b";`)
+
 	return out
 }
 
@@ -363,6 +364,15 @@ func jsonLadders(quick bool) []string {
 	return out
 }
 
+// serOverruns: declared sizes far beyond the input (evaluated as they are, no neighbourhood).
+func serOverruns() []string {
+	var out []string
+	for _, n := range []string{"3", "100", "65536", "2147483648", "99999999999999"} {
+		out = append(out, "a:"+n+":{i:0;N;}", "s:"+n+":\"x\";", "a:1:{i:0;a:"+n+":{}}")
+	}
+	return out
+}
+
 func serLadders(quick bool) []string {
 	var out []string
 	depths := ladderDepths(quick)
@@ -374,6 +384,9 @@ func serLadders(quick bool) []string {
 			strings.Repeat("a:1:{i:0;", d)+"N;"+strings.Repeat("}", d),
 			strings.Repeat("a:1:{i:0;", d),
 			strings.Repeat("a:1:{i:0;", d)+"N;"+strings.Repeat("}", d-1))
+		if d == 1 {
+			out = append(out, serOverruns()...)
+		}
 		if d <= 4096 { // origami's string scan is quadratic in the input: keep string-keyed ladders small
 			out = append(out, strings.Repeat(`a:1:{s:1:"a";`, d)+"i:1;"+strings.Repeat("}", d))
 		}
@@ -546,7 +559,7 @@ func decWorker(w *pool.W, arg json.RawMessage) {
 			if !w.Item(fmt.Sprintf("%s ladder #%d (%d bytes)", dc.Func, i, len(ls[i]))) {
 				continue
 			}
-			one(ls[i], false)
+			one(ls[i], len(ls[i]) <= 64)
 		}
 	}
 	fs.flush(w)
